@@ -165,14 +165,29 @@ def ops_text(fam, op):
             'gau': '%s ; %s ; GET_AND_UPDATE ; DIG 2 ; SWAP ; CONS ; SWAP' % (newv, push)}[op[0]]
 
 
-def script(hist, fam='string', mode='existing'):
+NEST = ['plain']     # where the big_map under test sits in the storage: 'plain' (first component), 'mapval' (inside the value of an ordinary map: pair -> map -> pair ->
+                     # big_map), 'sibling' (followed by a second big_map that the execution creates afresh: two new ids in one run)
+
+
+def script(hist, fam='string', mode='existing', marker=False):
     kt = FAMILIES[fam][0]
-    body = ' ; '.join(ops_text(fam, op) for op in hist)
-    store = 'pair (big_map (%s) (%s)) (pair (list (option (%s))) (list bool))' % (kt, vtype(), vtype())
+    body = 'RENAME' if marker else ' ; '.join(ops_text(fam, op) for op in hist)
+    bmt = 'big_map (%s) (%s)' % (kt, vtype())
+    slot, pro, epi, n, tail = bmt, '', '', 3, '(list bool)'
+    if NEST[0] == 'mapval':
+        slot = 'map nat (pair (%s) nat)' % bmt
+        pro = 'PUSH nat 0 ; GET ; IF_NONE { PUSH string "no" ; FAILWITH } {} ; CAR ; '
+        epi = 'PUSH nat 7 ; SWAP ; PAIR ; SOME ; EMPTY_MAP nat (pair (%s) nat) ; SWAP ; PUSH nat 0 ; UPDATE ; ' % bmt
+    elif NEST[0] == 'sibling':
+        n, tail = 4, '(pair (list bool) (big_map nat nat))'
+        pro = 'DIG 3 ; DROP ; '
+        epi = 'EMPTY_BIG_MAP nat nat ; PUSH (option nat) (Some 1) ; PUSH nat 1 ; UPDATE ; DUG 3 ; '
+    store = 'pair (%s) (pair (list (option (%s))) %s)' % (slot, vtype(), tail)
+    body = body + ' ; ' if body else ''
     if mode == 'copy':    # the big_map of the parameter replaces the (empty, fresh) one of the storage
-        return ('parameter (big_map (%s) (%s)) ; storage (%s) ; code { UNPAIR ; SWAP ; CDR ; SWAP ; PAIR ; UNPAIR 3 ; %s PAIR 3 ; NIL operation ; PAIR }'
-                % (kt, vtype(), store, body + ' ; ' if body else ''))
-    return 'parameter unit ; storage (%s) ; code { CDR ; UNPAIR 3 ; %s PAIR 3 ; NIL operation ; PAIR }' % (store, body + ' ; ' if body else '')
+        return ('parameter (big_map (%s) (%s)) ; storage (%s) ; code { UNPAIR ; SWAP ; CDR ; SWAP ; PAIR ; UNPAIR %d ; %s%s%sPAIR %d ; NIL operation ; PAIR }'
+                % (kt, vtype(), store, n, pro, body, epi, n))
+    return 'parameter unit ; storage (%s) ; code { CDR ; UNPAIR %d ; %s%s%sPAIR %d ; NIL operation ; PAIR }' % (store, n, pro, body, epi, n)
 
 
 _PARSED = {}
@@ -188,11 +203,11 @@ def _parse(text):
 
 def script_micheline(hist, fam, mode):
     import copy
-    skeleton = copy.deepcopy(_parse(script((), fam, mode)))
+    skeleton = copy.deepcopy(_parse(script((), fam, mode, marker=True)))
     code = next(s for s in skeleton if s['prim'] == 'code')['args'][0]
     body = [i for op in hist for i in copy.deepcopy(_parse('{ %s }' % ops_text(fam, op)))]
-    at = next(i for i, ins in enumerate(code) if ins == {'prim': 'PAIR', 'args': [{'int': '3'}]})
-    code[at:at] = body
+    at = next(i for i, ins in enumerate(code) if ins == {'prim': 'RENAME'})
+    code[at:at + 1] = body
     return skeleton
 
 
@@ -211,9 +226,25 @@ def run_impl(mode, chain, literal, hist, fam='string'):
     else:
         elts = sorted(((k, v) for k, v in literal.items() if v > 0), key=lambda kv: enc_sort_key(fam, kv[0]))
         bm = [{'prim': 'Elt', 'args': [mich(keys[k]), vjson(v)]} for k, v in elts]
-    storage = {'prim': 'Pair', 'args': [bm, {'prim': 'Pair', 'args': [[], []]}]}
+    if NEST[0] == 'mapval':
+        bm = [{'prim': 'Elt', 'args': [{'int': '0'}, {'prim': 'Pair', 'args': [bm, {'int': '7'}]}]}]
+    storage = {'prim': 'Pair', 'args': [bm, {'prim': 'Pair', 'args': [[], []] if NEST[0] != 'sibling' else [[], {'prim': 'Pair', 'args': [[], []]}]}]}
     ops, st, lazy_diff, stdout, err = Interpreter.run_code(parameter=parameter, storage=storage, script=script_micheline(hist, fam, mode), shell=ShellQuery(node=node))
     return st, lazy_diff, err, node
+
+
+_EC = []
+
+
+def _EmptyChain():
+    if not _EC:
+        from pytezos.context.impl import ExecutionContext
+
+        class EmptyChain(ExecutionContext):
+            def get_big_map_value(self, ptr, key_hash):  # nothing stored on chain
+                return None
+        _EC.append(EmptyChain)
+    return _EC[0]()
 
 
 def enc_sort_key(fam, k):
@@ -240,7 +271,20 @@ def compare(ctx, mode, chain, hist, obs, flat, literal, fam='string', expect=Non
     if err is not None:
         ctx.mismatch('C15:run:raises' + tag, '%s: run_code failed: %s' % (desc, str(err)[:300]), case)
         return False
-    bm, gets, mems = flat_args(st)
+    tag = ('' if fam == 'string' else ':key-' + fam) + ('' if NEST[0] == 'plain' else ':' + NEST[0])
+    case['nest'] = NEST[0]
+    desc += ' storage-shape=' + NEST[0]
+    sib = None
+    try:
+        if NEST[0] == 'sibling':
+            bm, gets, mems, sib = flat_args(st)
+        else:
+            bm, gets, mems = flat_args(st)
+        if NEST[0] == 'mapval':
+            bm = bm[0]['args'][1]['args'][0]
+    except Exception as e:   # noqa
+        ctx.mismatch('C15:run:storage-shape' + tag, '%s: resulting storage %s does not have the shape of the storage type (%r)' % (desc, json.dumps(st)[:300], e), case)
+        return False
     got_gets = [None if g['prim'] == 'None' else unv(g['args'][0]) for g in reversed(gets)]
     got_mems = [m['prim'] == 'True' for m in reversed(mems)]
     want_gets = [o[1] if o[1] else None for o in obs if o[0] == 'get']
@@ -251,7 +295,19 @@ def compare(ctx, mode, chain, hist, obs, flat, literal, fam='string', expect=Non
         ok = False
     # the diff, applied to the chain contents, must give the final dictionary
     diffs = [d for d in lazy_diff if d['kind'] == 'big_map']
-    if mode == 'copy':      # the dropped empty big_map of the storage may or may not be mentioned: the diff of the stored one is what counts
+    ids = [d['id'] for d in diffs]
+    if len(set(ids)) != len(ids):
+        ctx.mismatch('C15:diff:two-entries-for-one-id' + tag, '%s: the lazy diff has more than one entry for a big_map id: %s' % (desc, json.dumps(lazy_diff)[:400]), case)
+        ok = False
+    if sib is not None:
+        # the second big_map, created by this execution: an id of its own, allocated, holding its one binding
+        sd = [d for d in diffs if sib == {'int': d['id']}]
+        if sib == bm or len(sd) != 1 or sd[0]['diff']['action'] != 'alloc' or [u.get('key') for u in sd[0]['diff'].get('updates', [])] != [{'int': '1'}]:
+            ctx.mismatch('C15:diff:second-big_map' + tag, '%s: the big_map created next to the one under test is stored as %s (the one under test: %s) with diff %s; expected its own id, allocated, one binding' % (
+                desc, sib, bm, json.dumps(sd)[:300]), case)
+            ok = False
+        diffs = [d for d in diffs if bm == {'int': d['id']}]
+    elif mode == 'copy':      # the dropped empty big_map of the storage may or may not be mentioned: the diff of the stored one is what counts
         diffs = [d for d in diffs if bm == {'int': d['id']}]
     if len(diffs) != 1:
         ctx.mismatch('C15:diff:count' + tag, '%s: %d big_map diffs emitted for the stored big_map %s: %s' % (desc, len(diffs), bm, json.dumps(lazy_diff)[:300]), case)
@@ -299,6 +355,30 @@ def compare(ctx, mode, chain, hist, obs, flat, literal, fam='string', expect=Non
                          '%s: merge_lazy_diff of the emitted diff %s gives bindings %s and removals %s; the diff says bindings %s, removals %s' % (
                              desc, json.dumps(d['diff'].get('updates')), bound, sorted(map(str, gone)), want_bound, sorted(map(str, want_gone))), case)
             ok = False
+        # the diff lists its updates in whatever order the node reports them; merged that way (here: reversed) and updated once more, the big_map is still
+        # the dictionary (bindings of the diff + the new one) and its rendering is a literal pytezos itself accepts (keys in Michelson order)
+        ups = d['diff'].get('updates', [])
+        if len([u for u in ups if 'value' in u]) >= 2:
+            rdiff = [dict(d, diff=dict(d['diff'], updates=list(reversed(ups))))]
+            m2 = BT.from_micheline_value({'int': d['id']}).merge_lazy_diff(rdiff)
+            free = sorted(k for k in keys if k not in want_bound)
+            newk = free[len(free) // 2] if free else sorted(want_bound)[0]
+            m2.context = _EmptyChain()
+            some_val = next(v_ for _, v_ in merged.items)
+            _, m3 = m2.update(BT.args[0].from_micheline_value(mich(keys[newk])), some_val)
+            lit3 = m3.to_micheline_value(lazy_diff=True)
+            try:
+                back = BT.from_micheline_value(lit3)
+                got3 = {by_norm.get(norm(k_.to_micheline_value())): unv(v_.to_micheline_value()) for k_, v_ in back.items}
+            except Exception as e:   # noqa
+                got3 = 'rejected by from_micheline_value: %r' % (e,)
+            want3 = dict(want_bound)
+            want3[newk] = unv(some_val.to_micheline_value())
+            ctx.count(('merge-update', fam, tuple(sorted(want_bound)), newk), nontrivial=True)
+            if got3 != want3:
+                ctx.mismatch('C15:merge_lazy_diff:then-update' + tag, '%s: the diff merged with its updates listed in reverse order and then updated at key %s renders as %s, which is %s; expected the bindings %s' % (
+                    desc, lit(keys[newk]), json.dumps(lit3)[:300], got3, want3), case)
+                ok = False
     except Exception as e:   # noqa
         ctx.mismatch('C15:merge_lazy_diff:raises' + tag, '%s: merge_lazy_diff of the emitted diff raised %r' % (desc, e), case)
         ok = False
@@ -317,7 +397,7 @@ def run_config(ctx, keys, depth, inits, fams):
     """fams: {family: maximal history length replayed with that key family}"""
     init_tla = '{' + ', '.join('<<"%s", F(%d, %d, %d), F(%d, %d, %d)>>' % ((m,) + c + l) for m, c, l in inits) + '}'
     gen = {'BigMapLayerMC': MC % init_tla}
-    r = ctx.tlc('BigMapLayerMC', CFG % (', '.join('"%s"' % k for k in keys), depth), gen=gen, timeout=1500, coverage=True, name='BigMapLayerMC_%d_%d' % (len(keys), depth))
+    r = ctx.tlc('BigMapLayerMC', CFG % (', '.join('"%s"' % k for k in keys), depth), gen=gen, timeout=1500, coverage=True, name='BigMapLayerMC_%d_%d_%s_%s' % (len(keys), depth, VALTYPE[0], NEST[0]))
     ctx.require_no_violation(r, 'BigMapLayer')
     ctx.require_coverage(r, ['Get', 'Mem', 'Upd', 'GetUpd'])
     outs = sorted((v for v in r.printed if v[0] == 'OUT'), key=repr)
@@ -343,7 +423,7 @@ def run(ctx):
                 'once per key family (string, nat, int, bytes, pair, 4-leaf comb, nested comb with bool/option, or) with the depth given in replayed_by_key_family; GET/MEM results, the '
                 'emitted lazy diff applied to the chain contents, its action / id / copy source and each key_hash (recomputed with hashlib from an own legacy-form PACK) are compared; '
                 'non-trivial = history has an update')
-    ctx.assumptions = ['string values (the empty string included) and, in one configuration, list values (the empty list included); keys of 8 comparable type families', 'the exact shape of the diff is not prescribed: only its effect, action, id, copy source and key hashes',
+    ctx.assumptions = ['the big_map under test is the first component of the storage; in two further configurations it sits inside the value of an ordinary map, respectively is followed by a second big_map created in the same run', 'string values (the empty string included) and, in one configuration, list values (the empty list included); keys of 8 comparable type families', 'the exact shape of the diff is not prescribed: only its effect, action, id, copy source and key hashes',
                        'key_hash recomputed independently (own binary Micheline of the key with nested pairs + blake2b + base58)']
     I = ALL_INITS
     if ctx.quick:
@@ -352,12 +432,22 @@ def run(ctx):
         VALTYPE[0] = 'list'
         run_config(ctx, ['a', 'b'], 2, [I[0], I[7], I[6]], {'string': 2, 'nat': 2})
         VALTYPE[0] = 'string'
+        NEST[0] = 'mapval'
+        run_config(ctx, ['a', 'b'], 2, [I[0], I[6]], {'string': 2, 'nat': 2})
+        NEST[0] = 'sibling'
+        run_config(ctx, ['a', 'b'], 2, [I[7], I[0], I[6]], {'string': 2})
+        NEST[0] = 'plain'
     else:
         run_config(ctx, ['a', 'b', 'c'], 3, [I[0], I[1], I[4], I[5], I[9], I[7]], {'string': 3, 'comb4': 3, 'nat': 2, 'int': 2, 'bytes': 2, 'pair': 2, 'comb3n': 2, 'or': 2})
         run_config(ctx, ['a', 'b'], 4, [I[0], I[1], I[8]], {'string': 4})
         VALTYPE[0] = 'list'
         run_config(ctx, ['a', 'b'], 3, [I[0], I[7], I[6], I[5]], {'string': 3, 'nat': 2, 'comb4': 2})
         VALTYPE[0] = 'string'
+        NEST[0] = 'mapval'
+        run_config(ctx, ['a', 'b'], 3, [I[0], I[1], I[6], I[5]], {'string': 3, 'nat': 2, 'pair': 2})
+        NEST[0] = 'sibling'
+        run_config(ctx, ['a', 'b'], 3, [I[7], I[8], I[0], I[6]], {'string': 3, 'nat': 2})
+        NEST[0] = 'plain'
     ctx.exhaustive = True
 
 
